@@ -107,22 +107,38 @@ where
     where
         T: Ord,
     {
-        let a_str = self.values[i].to_string();
-        let b_str = other.values[i].to_string();
-
-        // plain numbers, including negative and fractional results of expressions
-        if let (Ok(a), Ok(b)) = (a_str.parse::<f64>(), b_str.parse::<f64>()) {
-            // a total order (NaN after every number), or the sort is not transitive
-            return match a.partial_cmp(&b) {
-                Some(ord) => ord,
-                None => a.is_nan().cmp(&b.is_nan()),
+        // every value is ranked on its own (deciding per pair is no order): what is no number at all
+        // (an empty value) first, then the numbers in their order, NaN last; whole numbers exactly
+        fn rank(text: &str) -> (u8, i128, f64) {
+            if let Ok(whole) = text.parse::<i128>() {
+                return (1, whole, 0.0);
+            }
+            let real = match text.parse::<f64>() {
+                Ok(real) => Some(real),
+                _ => parse_filesize_exact(text).map(|(numerator, denominator)| numerator as f64 / denominator as f64),
             };
+            match real {
+                Some(real) if real.is_nan() => (2, 0, 0.0),
+                Some(real) => (1, 0, real),
+                None => (0, 0, 0.0),
+            }
         }
 
-        let a = parse_filesize(&a_str).unwrap_or(0);
-        let b = parse_filesize(&b_str).unwrap_or(0);
+        let a_str = self.values[i].to_string();
+        let b_str = other.values[i].to_string();
+        let (a_class, a_whole, a_real) = rank(&a_str);
+        let (b_class, b_whole, b_real) = rank(&b_str);
 
-        a.cmp(&b)
+        if a_class != b_class {
+            return a_class.cmp(&b_class);
+        }
+
+        match (a_str.parse::<i128>().is_ok(), b_str.parse::<i128>().is_ok()) {
+            (true, true) => a_whole.cmp(&b_whole),
+            (true, false) => (a_whole as f64).partial_cmp(&b_real).unwrap_or(Ordering::Equal),
+            (false, true) => a_real.partial_cmp(&(b_whole as f64)).unwrap_or(Ordering::Equal),
+            (false, false) => a_real.partial_cmp(&b_real).unwrap_or(Ordering::Equal),
+        }
     }
 
     #[inline]
@@ -135,12 +151,15 @@ where
             .unwrap()
             .and_hms_opt(0, 0, 0)
             .unwrap();
-        let a = parse_datetime(&self.values[i].to_string())
-            .unwrap_or((default, default))
-            .0;
-        let b = parse_datetime(&other.values[i].to_string())
-            .unwrap_or((default, default))
-            .0;
+        // the key is a printed date: read it back whole (years beyond four digits carry a sign)
+        let read = |text: String| {
+            chrono::NaiveDateTime::parse_from_str(&text, "%Y-%m-%d %H:%M:%S")
+                .ok()
+                .or_else(|| parse_datetime(&text).ok().map(|(start, _)| start))
+                .unwrap_or(default)
+        };
+        let a = read(self.values[i].to_string());
+        let b = read(other.values[i].to_string());
 
         a.cmp(&b)
     }
